@@ -53,6 +53,7 @@ func checkC32(c *core.Ctx) {
 	ruleBulkArms(c)
 	ruleBulkResultOrder(c)
 	ruleBulkErrorCodes(c)
+	ruleBulkFailureRecorded(c)
 }
 
 func ruleBulkRun(c *core.Ctx) {
